@@ -518,3 +518,81 @@ harness! {
         assert!(inner.backlog.len() == 1 && inner.backlog[0].count == 2.0 && inner.n_samples == 1 && inner.max == 1.5, "C19 clone and original do not share state");
     }
 }
+
+/// scale function that never fuses (q_limit stays 0): merge() only sorts
+#[derive(Clone, Debug)]
+struct NoFuse;
+impl ScaleFunction for NoFuse {
+    fn delta(&self) -> f64 { 2. }
+    fn f(&self, _q: f64, _n: usize) -> f64 { 0. }
+    fn f_inv(&self, _k: f64, _n: usize) -> f64 { -1. }
+}
+
+// merge() with one existing centroid and an UNSORTED two-entry backlog whose smallest value lies below the centroid (fully concrete)
+harness! {
+    #[kani::unwind(5)]
+    fn c15_td_merge_three_concrete_sorted() {
+        let mut d = TDigestInner::new(NoFuse, 10);
+        d.centroids.push(Centroid { sum: 5., count: 1. });
+        d.backlog.push(Centroid { sum: 6., count: 1. });
+        d.backlog.push(Centroid { sum: 1., count: 1. });
+        d.min = 1.; d.max = 6.; d.n_samples = 3;
+        d.merge();
+        assert!(d.backlog.is_empty() && d.centroids.len() == 3, "C16 merge keeps every entry when nothing is fused");
+        assert!(d.centroids[0].sum == 1. && d.centroids[1].sum == 5. && d.centroids[2].sum == 6., "C15 C16 centroids are sorted by mean after merge");
+    }
+}
+
+// the same with the two backlog values symbolic on an integer grid (bounded): sorted result, mass kept
+harness! {
+    #[kani::unwind(5)]
+    fn c15_td_merge_three_grid_sorted() {
+        let mut d = TDigestInner::new(NoFuse, 10);
+        let (a, b) = (grid(0, 8, 1.), grid(0, 8, 1.));
+        d.centroids.push(Centroid { sum: 5., count: 1. });
+        d.backlog.push(Centroid { sum: a, count: 1. });
+        d.backlog.push(Centroid { sum: b, count: 1. });
+        d.min = 0.; d.max = 8.; d.n_samples = 3;
+        d.merge();
+        assert!(d.backlog.is_empty() && d.centroids.len() == 3, "C16 merge keeps every entry when nothing is fused");
+        assert!(d.centroids[0].sum <= d.centroids[1].sum && d.centroids[1].sum <= d.centroids[2].sum, "C15 C16 centroids are sorted by mean after merge");
+        assert!(d.centroids[0].sum + d.centroids[1].sum + d.centroids[2].sum == 5. + a + b, "C16 merge conserves the sum");
+        vcover!(b < 5. && a > 5., "backlog straddles the centroid, out of order");
+    }
+}
+
+/// scale function whose limit is, per call, either "never fuse" or "always fuse": every merge schedule is explored with two constants
+#[derive(Clone, Debug)]
+struct BoolScale;
+impl ScaleFunction for BoolScale {
+    fn delta(&self) -> f64 { 2. }
+    fn f(&self, _q: f64, _n: usize) -> f64 {
+        assert!(_q >= 0. && _q <= 1. + 1e-9, "C11 C15 merge hands the scale function a rank in [0,1]");
+        0.
+    }
+    fn f_inv(&self, _k: f64, _n: usize) -> f64 { let fuse: bool = any(); if fuse { 2. } else { -1. } }
+}
+
+// three entries (one centroid, two unsorted backlog values on an integer grid, weights 1..4), every fuse schedule (bounded)
+harness! {
+    #[kani::unwind(5)]
+    fn c16_td_merge_three_any_schedule() {
+        let mut d = TDigestInner::new(BoolScale, 10);
+        let (a, b) = (grid(0, 8, 1.), grid(0, 8, 1.));
+        let (wa, wb) = (weight(), weight());
+        d.centroids.push(Centroid { sum: 5. * 2., count: 2. });
+        d.backlog.push(Centroid { sum: a * wa, count: wa });
+        d.backlog.push(Centroid { sum: b * wb, count: wb });
+        d.min = 0.; d.max = 8.; d.n_samples = 3;
+        d.merge();
+        let (c, sm, n) = totals(&d);
+        assert!(d.backlog.is_empty() && n >= 1 && n <= 3, "C11 C16 merge empties the backlog and never creates centroids");
+        assert!(c == 2. + wa + wb && sm == 10. + a * wa + b * wb, "C16 count() and sum() are conserved by compression, whatever is fused");
+        let mut i = 0;
+        while i + 1 < d.centroids.len() {
+            assert!(d.centroids[i].mean() <= d.centroids[i + 1].mean(), "C15 merge leaves centroid means sorted");
+            i += 1;
+        }
+        vcover!(n == 2, "exactly one fusion");
+    }
+}
